@@ -290,6 +290,9 @@ type vfMemStore struct {
 	m    map[string]Session
 	Log  []string
 	name string
+	// EmptyMiss: an unknown key is answered with an empty, non-nil Session (what a store that decodes a missing row
+	// into make([]byte, 0) fields returns) instead of the zero Session
+	EmptyMiss bool
 }
 
 func vfNewMemStore(name string) *vfMemStore { return &vfMemStore{m: map[string]Session{}, name: name} }
@@ -306,8 +309,11 @@ func (s *vfMemStore) Set(key []byte, v Session) error {
 func (s *vfMemStore) Get(key []byte) (Session, error) {
 	s.mu.Lock()
 	defer s.mu.Unlock()
-	v := s.m[string(key)]
+	v, hit := s.m[string(key)]
 	s.Log = append(s.Log, fmt.Sprintf("get %x -> id=%x", key, v.ID))
+	if !hit && s.EmptyMiss {
+		return Session{ID: []byte{}, Secret: []byte{}}, nil
+	}
 
 	return Session{ID: append([]byte(nil), v.ID...), Secret: append([]byte(nil), v.Secret...)}, nil
 }
